@@ -240,6 +240,26 @@ def _run_one(c):
   else:
     n = (float(fut(u).sim_time) - clock0) / dt
     fc = 'steps' if abs(n - c['steps']) <= 1e-9 * c['steps'] else f'{n:.9g}'
+    # time_integration.maybe_fix_sim_time_roundoff snaps the clock to the exact multiple of dt and touches nothing else
+    fix = getattr(ti, 'maybe_fix_sim_time_roundoff', None)
+    if fc == 'steps' and fix is not None:
+      last = fut(u)
+      snapped = fix(jax.tree_util.tree_map(lambda x: x, last), dt)
+      a, b = P.leaves(last), P.leaves(snapped)
+      same = all(np.array_equal(np.asarray(a[k]), np.asarray(b[k])) for k in a if k not in ('tracers', 'sim_time'))
+      same = same and all(np.array_equal(np.asarray(a['tracers'][k]), np.asarray(b['tracers'][k])) for k in (a.get('tracers') or {}))
+      if not same:
+        fc = 'fix_roundoff:changed_other_leaves'
+      elif float(b['sim_time']) != dt * (round(clock0 / dt) + c['steps']):
+        fc = f'fix_roundoff:{float(b["sim_time"])!r}!={dt * (round(clock0 / dt) + c["steps"])!r}'
+      else:
+        # accumulated round-off of either sign is removed
+        for eps in (-1e-12, 1e-12):
+          drift = jax.tree_util.tree_map(lambda x: x, last)
+          drift.sim_time = last.sim_time * (1.0 + eps)
+          got = float(fix(drift, dt).sim_time)
+          if got != dt * (round(clock0 / dt) + c['steps']):
+            fc = f'fix_roundoff:drift{eps:+.0e}:{got!r}'
   return {'cfg': c, 'steps': c['steps'] if finite else -1, 'init': init, 'ev': ev, 'final_clock': fc,
           'final': P.proj(fut(u))}
 
